@@ -88,10 +88,10 @@ Proof.
   - destruct (c && negb (ctor_policy_is_none_test || t)); discriminate H.
   - destruct (c && negb (ctor_defperm_is_none_test || t)); discriminate H.
   - discriminate H.
-  - inversion H; subst. exists o. repeat split.
+  - inversion H; subst. exists o0. repeat split.
     intros prog eo Hv. rewrite secured_permission_declarative. cbn [spec_eff].
-    destruct (o_perm o); [reflexivity|]. destruct eo; [rewrite orb_true_r; reflexivity|].
-    unfold var_ok in Hv. rewrite Hv. reflexivity.
+    destruct (o_perm (viewdefaults o0)); [reflexivity|]. destruct eo; [rewrite orb_true_r; reflexivity|].
+    unfold var_ok in Hv. cbn in Hv. rewrite Hv. reflexivity.
   - inversion H; subst. exists o0. repeat split.
     intros prog eo Hv. rewrite secured_permission_declarative, force_perm by (simpl; auto).
     rewrite strip_npr_marker. reflexivity.
